@@ -2,6 +2,7 @@
 import z3
 from pyvc.kinds import V, STR, INT, BOOL, Ref, Seq, SetK, Map, NULL, RefSort
 from pyvc.contract import Contract
+from pyvc.contract import returned_local as _C_returned_local
 
 NODE = "avocado_i2n/cartgraph/node.py"
 
@@ -54,6 +55,7 @@ Contract(
     target=f"{NODE}::EdgeRegister.get_workers",
     name="EdgeRegister.get_workers[all]",
     params={"self": Ref("EdgeRegister")},
+    aliases={"worker_keys": _C_returned_local},
     requires=["wf_map(self._registry)"],
     loops={0: {
         "invariants": ["forall(STR, lambda w: (w in worker_keys) == exists(range(0, _i), lambda j: "
